@@ -45,7 +45,7 @@ impl<K: KeyT, V: ValT> World<K, V> {
                     errs.push(format!("map {}: iteration differs from the model: unexpected {:?}, missing {:?} (kv, key id, value id, payload); {} iterated, {} expected", mi, extra, missing, got.len(), want.len()));
                 }
                 // lookups
-                let uni = if K::CLASS == ElemClass::Zst { 1 } else { self.cfg.universe };
+                let uni = if K::CLASS.is_zst() { 1 } else { self.cfg.universe };
                 let keys: Vec<u32> = if probe_all && uni <= 256 {
                     (0..uni).collect()
                 } else {
@@ -105,7 +105,7 @@ impl<K: KeyT, V: ValT> World<K, V> {
                     let missing: Vec<_> = w.difference(&g).take(4).collect();
                     errs.push(format!("set {}: iteration differs from the model: unexpected {:?}, missing {:?}; {} iterated, {} expected", si, extra, missing, got.len(), want.len()));
                 }
-                let uni = if K::CLASS == ElemClass::Zst { 1 } else { self.cfg.universe };
+                let uni = if K::CLASS.is_zst() { 1 } else { self.cfg.universe };
                 let keys: Vec<u32> = if probe_all && uni <= 256 {
                     (0..uni).collect()
                 } else {
@@ -206,7 +206,7 @@ impl<K: KeyT, V: ValT> World<K, V> {
     /// After an interrupted call: make every model hold what *lookups* find (not what iteration
     /// yields), so that the iterators are then judged against an independent view (C08).
     pub fn adopt_by_lookup(&mut self) -> Result<(), String> {
-        let uni = if K::CLASS == ElemClass::Zst { 1 } else { self.cfg.universe.min(4096) };
+        let uni = if K::CLASS.is_zst() { 1 } else { self.cfg.universe.min(4096) };
         for (mi, slot) in self.maps.iter_mut().enumerate() {
             let mut keys: Vec<u32> = (0..uni).collect();
             keys.extend(slot.model.keys().copied().filter(|k| *k >= uni));
@@ -277,6 +277,20 @@ impl<K: KeyT, V: ValT> World<K, V> {
     /// `leak_check`: report live objects nobody references (off under fault injection).
     pub fn check_ledger(&self, op_index: usize, op_kind: &'static str, leak_check: bool) -> Vec<Anomaly> {
         let mut out = Vec::new();
+        if K::CLASS == ElemClass::ZstDrop {
+            // objects are indistinguishable: the ledger is a count
+            let stored: i64 = self.maps.iter().map(|s| 2 * s.model.len() as i64).sum::<i64>() + self.sets.iter().map(|s| s.model.len() as i64).sum::<i64>();
+            let (live, over, slack) = ctx::with(|c| (c.zst_live, c.zst_overdrop, c.zst_slack));
+            let mut err = |detail: String, class: &'static str| out.push(Anomaly { class, family: Family::Internal, op_index, op_kind, detail });
+            if over {
+                err("more destructor runs of zero-sized objects than objects were created (double drop)".to_string(), "ledger");
+            } else if live < stored {
+                err(format!("{} zero-sized objects are stored in collections but only {} are alive (an element was dropped and kept)", stored, live), "ledger");
+            } else if live > stored && leak_check && !slack {
+                err(format!("{} zero-sized objects alive, {} stored in collections (leak)", live, stored), "leak");
+            }
+            return out;
+        }
         if K::CLASS != ElemClass::Tracked {
             return out;
         }
@@ -357,6 +371,14 @@ impl<K: KeyT, V: ValT> World<K, V> {
                 op_kind: "drop",
                 detail: format!("{} table allocations still live after every collection was dropped ({} exempt by mem::forget)", live, self.forgot_tables),
             });
+        }
+        if K::CLASS == ElemClass::ZstDrop {
+            let (live, over, slack) = ctx::with(|c| (c.zst_live, c.zst_overdrop, c.zst_slack));
+            if over || live < 0 {
+                out.push(Anomaly { class: "ledger", family: Family::Internal, op_index, op_kind: "drop", detail: "more destructor runs of zero-sized objects than objects were created (double drop)".to_string() });
+            } else if live > 0 && leak_check && !slack {
+                out.push(Anomaly { class: "leak", family: Family::Internal, op_index, op_kind: "drop", detail: format!("{} zero-sized objects never dropped", live) });
+            }
         }
         if K::CLASS == ElemClass::Tracked && leak_check {
             let n = ctx::with(|c| c.ledger.values().filter(|o| o.state == ObjState::Live).count());
